@@ -1,5 +1,39 @@
-import Secp.Hand.History
-/-! # C05 — placeholder: theorems are being added in this session -/
+import Secp.Proofs.LimbGroup
+/-!
+# C05 — Element equality and identity test are representation-independent
+
+Model of the code: the generated `Curve.isEqual` (two cross-multiplied comparisons) and `IsIdentity`
+(`z.IsZero() != 0`), at the limb implementation. Specification: equality in Mathlib's group.
+-/
 namespace C05
-theorem model_is_total : True := trivial
+open Hand.Element
+
+abbrev F := Hand.limbOps
+abbrev Valid (P : Pt L4) : Prop := PtValid limbLawful P
+noncomputable abbrev G (P : Pt L4) := toGp limbLawful curveOK_Fp P
+
+/-- **Equal** returns 1 exactly when the two operands are the same group element — whatever their projective
+representations — and 0 otherwise (so `P` vs `-P`, points sharing `x` or `y`, and any point vs the identity
+compare unequal, and all representations of the identity compare equal). -/
+theorem equal_iff (P Q : Pt L4) (hP : Valid P) (hQ : Valid Q) :
+    (equal F P Q = 1 ↔ G P = G Q) ∧ (equal F P Q = 0 ∨ equal F P Q = 1) :=
+  _root_.equal_iff limbLawful curveOK_Fp P Q hP hQ
+
+/-- **Equal** is symmetric -/
+theorem equal_symm (P Q : Pt L4) (hP : Valid P) (hQ : Valid Q) : equal F P Q = equal F Q P :=
+  _root_.equal_symm limbLawful curveOK_Fp P Q hP hQ
+
+/-- **IsIdentity** is true exactly for the identity -/
+theorem isIdentity_iff (P : Pt L4) (hP : Valid P) : isIdentity F P = true ↔ G P = 0 :=
+  _root_.isIdentity_iff limbLawful curveOK_Fp P hP
+
+/-- corollary: `P` and `-P` compare unequal unless `P = -P`, i.e. (no 2-torsion) unless `P` is the identity -/
+theorem equal_neg (P : Pt L4) (hP : Valid P) (h : equal F P (negate F P) = 1) : G P = - G P := by
+  obtain ⟨hv, hg⟩ := _root_.negate_correct limbLawful curveOK_Fp P hP
+  rw [← hg]
+  exact ((equal_iff P (negate F P) hP hv).1).mp h
+
+example : Valid Hand.ElementL.base := base_valid
+example : Valid (identity F) := identity_valid limbLawful
+
 end C05
